@@ -11,6 +11,10 @@ fold of C12/Model.v uses: the kernel-building loops of RepetitionExperimentKerne
 (initial FixedIndexStrategy(index=K), chaining RelativeIndexStrategy(reference_index_kernel=<kernels>[-1]), the keyword arguments
 of the kernel constructors).
 
+The attribute `_qutrit_calibration_points` is a record field of RepetitionExperimentKernel; both shapes of `indexing_kernels` (calibration
+kernel always / only when the flag is set, finding F15) translate, and `experiment_kernel_honours_calibration_flag` records which one
+was seen (the C12 theorems require it to be true).
+
 Modelling decisions (all visible in the generated text):
   * the dynamic `self.index_offset_strategy.get_index(self)` is the record field `start_index` (the property body is pinned);
   * qubit identifiers are `Z` (membership = existsb Z.eqb);
@@ -110,6 +114,17 @@ class KTranslator(FnTranslator):
             loc2[g.target.id] = (g.target.id, ity[1])
             b, bty = self.expr(n.elt, loc2)
             return f"(map (fun {g.target.id} => {b}) {it})", ('list', bty)
+        if isinstance(n, ast.IfExp):
+            c, cty = self.expr(n.test, loc)
+            self.want(n, cty, 'bool')
+            a, aty = self.expr(n.body, loc)
+            b, bty = self.expr(n.orelse, loc)
+            if aty == ('list', '?') and bty[0] == 'list':
+                aty = bty
+            if bty == ('list', '?') and aty[0] == 'list':
+                bty = aty
+            need(aty == bty, n, "if-expression branches differ in type")
+            return f"(if {c} then {a} else {b})", aty
         if isinstance(n, ast.BinOp) and isinstance(n.op, ast.Add):
             a, aty = self.expr(n.left, loc)
             b, bty = self.expr(n.right, loc)
@@ -576,7 +591,8 @@ def generate(repo):
     expect_methods(ek, eprops + egets + statics + ['__init__', 'contains', 'estimate_experiment_repetitions'])
     pin_body(find_func(ek, 'contains'), 'raise NotImplemented')
     env.records['RepetitionExperimentKernel'] = {'_repetition_kernels': ('list', ('rec', 'RepetitionIndexKernel')),
-                                                 '_calibration_kernel': ('rec', 'QutritCalibrationIndexKernel'), '_repetitions': 'Z'}
+                                                 '_calibration_kernel': ('rec', 'QutritCalibrationIndexKernel'), '_repetitions': 'Z',
+                                                 '_qutrit_calibration_points': 'bool'}
     out.append("(* the attributes of RepetitionExperimentKernel that its methods read (built by __init__, see C12/Model.v) *)")
     out.append(coq_record('RepetitionExperimentKernel', env.records['RepetitionExperimentKernel']))
     for s in statics:
@@ -618,11 +634,16 @@ def generate(repo):
     cal = ib[i + 2]
     need(isinstance(cal, ast.AnnAssign) and unparse(cal.target) == 'self._calibration_kernel', cal, "calibration kernel assignment")
     calibration_ctor(env, cal.value, 'self._repetition_kernels', loc, subst, 'RepetitionExperimentKernel_init', out)
-    out.append("(* `self._qutrit_calibration_points` is stored by __init__ and read by no method: the calibration kernel is always built *)\n")
+    carried = {'self._repetitions', 'self._qutrit_calibration_points'}
     for fn in (find_func(ek, m) for m in eprops + egets):
         for x in ast.walk(fn):
-            if isinstance(x, ast.Attribute) and unparse(x) in table and unparse(x) != 'self._repetitions':
+            if isinstance(x, ast.Attribute) and unparse(x) in table and unparse(x) not in carried:
                 fail(x, "a getter reads a constructor attribute the model does not carry")
+    # does the cycle (indexing_kernels) depend on qutrit_calibration_points?  (finding F15: before the fix no method read the flag)
+    honours = any(isinstance(x, ast.Attribute) and unparse(x) == 'self._qutrit_calibration_points'
+                  for x in ast.walk(find_func(ek, 'indexing_kernels')))
+    out.append("(* whether indexing_kernels reads self._qutrit_calibration_points (the calibration kernel object itself is always built by __init__) *)")
+    out.append(f"Definition experiment_kernel_honours_calibration_flag : bool := {'true' if honours else 'false'}.\n")
 
     # ---- estimate_experiment_repetitions : pinned loop, translated tail
     est = find_func(ek, 'estimate_experiment_repetitions')
